@@ -168,6 +168,7 @@ def corr_D(run, configs, rotors, preps, poison=0.0):
     h = helpers()
     b = Batch(run, "fill-D")
     b2 = Batch(run, "fill-D-generated-kernels")
+    b3 = Batch(run, "Wigner.D-generated-method-body")
     for (L, ellmin) in configs:
         w = spherical.Wigner(L, ellmin)
         for lab, R in rotors:
@@ -181,7 +182,11 @@ def corr_D(run, configs, rotors, preps, poison=0.0):
                   arr_bits(D), {"L": L, "ell_min": ellmin, "R": R, "stratum": lab}, lab)
             b2.add(f"genDfull {L} {ellmin} {' '.join(fbits(x) for x in R)} {fbits(h['imsqrt'](p['za_rot']))} {fbits(h['imsqrt'](p['zg_rot']))} {fbits(poison)}",
                    arr_bits(D), {"L": L, "ell_min": ellmin, "R": R, "stratum": lab, "model": "generated"}, lab)
-    return b.flush() + b2.flush()
+            za, zg = p["za_rot"], p["zg_rot"]
+            b3.add(f"methD {L} {ellmin} {' '.join(fbits(x) for x in R)} {fbits(za.real)} {fbits(za.imag)} {fbits(h['imsqrt'](za))} "
+                   f"{fbits(zg.real)} {fbits(zg.imag)} {fbits(h['imsqrt'](zg))} {fbits(poison)}",
+                   arr_bits(D), {"L": L, "ell_min": ellmin, "R": R, "stratum": lab, "model": "generated-method"}, lab)
+    return b.flush() + b2.flush() + b3.flush()
 
 
 def corr_Y(run, configs, rotors, preps, spins=None, poison=0.0):
@@ -191,6 +196,7 @@ def corr_Y(run, configs, rotors, preps, spins=None, poison=0.0):
     h = helpers()
     b = Batch(run, "fill-sYlm")
     b2 = Batch(run, "fill-sYlm-generated-kernels")
+    b3 = Batch(run, "Wigner.sYlm-generated-method-body")
     for (L, P, ellmin) in configs:
         w = spherical.Wigner(L, ellmin, mp_max=P)
         for lab, R in rotors:
@@ -208,7 +214,10 @@ def corr_Y(run, configs, rotors, preps, spins=None, poison=0.0):
                       arr_bits(Y), {"L": L, "P": P, "ell_min": ellmin, "s": s, "R": R, "stratum": lab}, f"{lab}|s|={abs(s)}" if abs(s) >= 3 else lab)
                 b2.add(f"genY {L} {w.mp_max} {ellmin} {s} {' '.join(fbits(x) for x in R)} {fbits(h['imsqrt'](p['za_rot']))} {fbits(pw.real)} {fbits(pw.imag)} {fbits(poison)}",
                        arr_bits(Y), {"L": L, "P": P, "ell_min": ellmin, "s": s, "R": R, "stratum": lab, "model": "generated"}, f"{lab}|s|={abs(s)}" if abs(s) >= 3 else lab)
-    return b.flush() + b2.flush()
+                za = p["za_rot"]
+                b3.add(f"methY {L} {w.mp_max} {ellmin} {s} {' '.join(fbits(x) for x in R)} {fbits(za.real)} {fbits(za.imag)} {fbits(h['imsqrt'](za))} {fbits(pw.real)} {fbits(pw.imag)} {fbits(poison)}",
+                       arr_bits(Y), {"L": L, "P": P, "ell_min": ellmin, "s": s, "R": R, "stratum": lab, "model": "generated-method"}, f"{lab}|s|={abs(s)}" if abs(s) >= 3 else lab)
+    return b.flush() + b2.flush() + b3.flush()
 
 
 def cx_tokens(a):
@@ -222,6 +231,7 @@ def corr_evalH(run, cases, rotors, preps, poison=0.0):
     h = helpers()
     b = Batch(run, "evaluate-Horner")
     b2 = Batch(run, "evaluate-Horner-generated-kernel")
+    b3 = Batch(run, "Wigner.evaluate-generated-method-body")
     for (L, P, s, eM, f) in cases:
         # the calculator's own ell_min (anything up to |s| is accepted by evaluate) must not matter: same model line
         emin = 0 if (len(b.lines) // max(len(rotors), 1)) % 2 == 0 else min(abs(s), L)
@@ -242,7 +252,9 @@ def corr_evalH(run, cases, rotors, preps, poison=0.0):
                   arr_bits(np.array([v])), {"L": L, "P": P, "s": s, "ell_max_modes": eM, "R": R, "stratum": lab}, f"{lab}|s|={abs(s)}" if abs(s) >= 3 else lab)
             b2.add(f"genevalH {L} {w.mp_max} {s} {eM} {' '.join(fbits(x) for x in R)} {fbits(pw.real)} {fbits(pw.imag)} {fbits(prev.real)} {fbits(prev.imag)} {fbits(poison)} " + cx_tokens(fa),
                    arr_bits(np.array([v])), {"L": L, "P": P, "s": s, "ell_max_modes": eM, "R": R, "stratum": lab, "model": "generated"}, f"{lab}|s|={abs(s)}" if abs(s) >= 3 else lab)
-    return b.flush() + b2.flush()
+            b3.add(f"methevalH {L} {w.mp_max} {emin} {s} {eM} {' '.join(fbits(x) for x in R)} {fbits(pw.real)} {fbits(pw.imag)} {fbits(prev.real)} {fbits(prev.imag)} {fbits(poison)} " + cx_tokens(fa),
+                   arr_bits(np.array([v])), {"L": L, "P": P, "s": s, "ell_max_modes": eM, "R": R, "stratum": lab, "model": "generated-method"}, f"{lab}|s|={abs(s)}" if abs(s) >= 3 else lab)
+    return b.flush() + b2.flush() + b3.flush()
 
 
 def corr_rotH(run, cases, rotors, preps, poison=0.0):
@@ -252,6 +264,7 @@ def corr_rotH(run, cases, rotors, preps, poison=0.0):
     h = helpers()
     b = Batch(run, "rotate-Horner")
     b2 = Batch(run, "rotate-Horner-generated-kernel")
+    b3 = Batch(run, "Wigner.rotate-generated-method-body")
     for (L, s, eM, f) in cases:
         w = spherical.Wigner(L)
         modes = spherical.Modes(np.array(f, dtype=complex), spin_weight=s, ell_min=0, ell_max=eM)
@@ -268,7 +281,9 @@ def corr_rotH(run, cases, rotors, preps, poison=0.0):
                   arr_bits(v), {"L": L, "s": s, "ell_max_modes": eM, "R": R, "stratum": lab}, f"{lab}|s|={abs(s)}" if abs(s) >= 3 else lab)
             b2.add(f"genrotH {L} {s} {eM} {' '.join(fbits(x) for x in R)} {fbits(poison)} " + cx_tokens(pws) + " " + cx_tokens(fa),
                    arr_bits(v), {"L": L, "s": s, "ell_max_modes": eM, "R": R, "stratum": lab, "model": "generated"}, f"{lab}|s|={abs(s)}" if abs(s) >= 3 else lab)
-    return b.flush() + b2.flush()
+            b3.add(f"methrotH {L} {s} {eM} {' '.join(fbits(x) for x in R)} {fbits(poison)} " + cx_tokens(pws) + " " + cx_tokens(fa),
+                   arr_bits(v), {"L": L, "s": s, "ell_max_modes": eM, "R": R, "stratum": lab, "model": "generated-method"}, f"{lab}|s|={abs(s)}" if abs(s) >= 3 else lab)
+    return b.flush() + b2.flush() + b3.flush()
 
 
 def corr_w3j(run, cases, poison=3.5):
